@@ -23,7 +23,7 @@ func init() {
 			"Added after blind round 8: every map operation on a value loaded from a lock-protected map field happens under that field's lock (a map is a reference: a 'snapshot' taken under the lock is the live map). " +
 			"Added after blind round 9: fields of the objects every concurrent reader of a table file shares (sstable.Reader, block fetcher, block cache, I/O manager and what they hold) are written on the read path only under an exclusive lock of those objects.",
 		NotDecided: "absence of data races in general (needs a happens-before detector over executions), panics from index arithmetic, goroutine leaks, Close concurrent with other calls (out of the property's scope).",
-		Rules:      []func(*Ctx, *Reporter){ruleGuardedBy, ruleAtomicConsistency, ruleReentrancyScope, ruleLockOrder, ruleTxRelease, ruleLockReleasedOnEveryExit, ruleNoBlockingChanUnderLock, ruleNoSharedMapHandedOut, ruleGuardedMapsUsedUnderLock, ruleSharedReaderPartsWriteUnderLock},
+		Rules:      []func(*Ctx, *Reporter){ruleGuardedBy, ruleAtomicConsistency, ruleReentrancyScope, ruleLockOrder, ruleTxRelease, ruleLockReleasedOnEveryExit, ruleNoBlockingChanUnderLock, ruleNoSharedMapHandedOut, ruleGuardedMapsUsedUnderLock, ruleSharedReaderPartsWriteUnderLock, ruleSharedWaitsAreBroadcast},
 	})
 }
 
